@@ -7,7 +7,8 @@ from metapype.model.node import Node
 from metapype.eml import rule as rulemod
 from metapype.eml.exceptions import ChildNotAllowedError
 
-TRUSTED = ["'restores validity whenever possible' is decided here by exhaustive small-scope comparison with the declarative language (a test, not a theorem)"]
+TRUSTED = ["the declarative language (harness/lang.py, Lean `Lang`) is my reading of the rule grammar, as in C01",
+           "`insAt` models list.insert for 0 <= i <= len (the only indices child_insert_index returns)"]
 FOREIGN = "zzForeign"
 
 
